@@ -44,7 +44,37 @@ type wcfg struct {
 var opKinds = []string{"req-good", "req-5xx", "req-abort", "req-hash-client", "add", "remove", "strategy", "list", "metrics", "health", "eject", "is-healthy", "pool", "stop",
 	// reads whose client is gone: the ResponseWriter's Write fails after 0..n bytes (WriteHeader works), as
 	// http.Server's writer does once the scraper has disconnected or its write deadline has passed
-	"metrics-client-gone", "health-client-gone", "admin-metrics", "admin-metrics-client-gone", "list-client-gone"}
+	"metrics-client-gone", "health-client-gone", "admin-metrics", "admin-metrics-client-gone", "list-client-gone",
+	// admin calls the API refuses (operator typos, malformed bodies, unknown names): the error paths run
+	// concurrently with everything else and must leave the balancer as usable as before
+	"admin-refused"}
+
+// refusedAdminCalls are admin requests Helios answers with an error status (or, for the unknown name, a no-op).
+var refusedAdminCalls = []struct {
+	method, path string
+	body         string
+}{
+	{"POST", "/v1/backends/add", `{"name":"bad1","address":"http://10.0.0.7:808O","weight":1}`}, // letter O in the port: url.Parse refuses
+	{"POST", "/v1/backends/add", `{"name":"bad2","address":"http://[::1","weight":1}`},
+	{"POST", "/v1/backends/add", `{"name":"bad3","address":"http://h/%zz","weight":1}`},
+	{"POST", "/v1/backends/add", `{"name":"bad4","address":"://nohost","weight":1}`},
+	{"POST", "/v1/backends/add", `{"name":"bad5","address":"http://a b/","weight":1}`},
+	{"POST", "/v1/backends/add", `{"name":"bad6","address":"","weight":1}`},
+	{"POST", "/v1/backends/add", `{"name":"","address":"http://127.0.0.1:9","weight":1}`},
+	{"POST", "/v1/backends/add", `{"name":"bad7","address":"http://127.0.0.1:9","weight":"heavy"}`},
+	{"POST", "/v1/backends/add", `{"name":"bad8",`},
+	{"POST", "/v1/backends/add", ``},
+	{"GET", "/v1/backends/add", ``},
+	{"POST", "/v1/backends/remove", `{"name":"never-added"}`},
+	{"POST", "/v1/backends/remove", `{"nme":"x0"}`},
+	{"POST", "/v1/backends/remove", `[1,2`},
+	{"DELETE", "/v1/backends/remove", `{"name":"x0"}`},
+	{"POST", "/v1/strategy", `{"strategy":"fastest"}`},
+	{"POST", "/v1/strategy", `{"strategy":""}`},
+	{"POST", "/v1/strategy", `{"strategy":7}`},
+	{"PUT", "/v1/strategy", `{"strategy":"round_robin"}`},
+	{"GET", "/v1/nothing-here", ``},
+}
 
 // goneWriter is an http.ResponseWriter whose connection breaks after `left` more body bytes: Write
 // passes on what still fits and returns the error net/http reports for a vanished peer.
@@ -218,6 +248,11 @@ func runWorkload(t *testing.T, c wcfg, overlap *[lenKinds]int64) string {
 					l.LB.GetMetricsCollector().MetricsHandler()(newGoneWriter(goneAfter[rng.Intn(len(goneAfter))]), httptest.NewRequest("GET", "/metrics", nil))
 				case "health-client-gone":
 					l.LB.GetMetricsCollector().HealthHandler()(newGoneWriter(goneAfter[rng.Intn(len(goneAfter))]), httptest.NewRequest("GET", "/health", nil))
+				case "admin-refused":
+					rc := refusedAdminCalls[rng.Intn(len(refusedAdminCalls))]
+					req := httptest.NewRequest(rc.method, rc.path, strings.NewReader(rc.body))
+					req.RemoteAddr = "127.0.0.1:999"
+					admin.ServeHTTP(httptest.NewRecorder(), req)
 				case "admin-metrics":
 					adminCall("GET", "/v1/metrics", nil)
 				case "admin-metrics-client-gone", "list-client-gone":
@@ -315,7 +350,7 @@ func runWorkload(t *testing.T, c wcfg, overlap *[lenKinds]int64) string {
 	return ""
 }
 
-const lenKinds = 19 // len(opKinds)
+const lenKinds = 20 // len(opKinds)
 
 func TestC12ConcurrentWorkloads(t *testing.T) {
 	sub := lab.Sub("concurrent-workloads", "all 5 strategies x 2^6 on/off combinations of breaker, limiter, passive checks, active checks, websocket pool, plugin chain (logging, request-id, size_limit, gzip, headers + request/trace IDs) are cycled (320 configurations); for each a workload of 8-64 goroutines x 6-20 operations over "+
